@@ -103,6 +103,20 @@ CHECKS = {
              "copy/deepcopy/CreateCopy()/pickle round trips are equal. Inductive reading: no step mutates any member => no sequence does.",
         note="numpy arrays modelled as object arrays incl. in-place (out=) ufunc semantics; two-step chains in thorough",
         ref="DESIGN.md §4 C13"),
+    "C14": dict(
+        text="Static: every quantity type, unit and category of the three shipped databases (base unit identity proved for ALL amounts, each unit in exactly one "
+             "type in both indexes, categories' default/valid units of their type, default inside limits, every unit and category builds a valid Scalar). "
+             "Dynamic: one registration step (46 steps + 10 POSC steps: AddUnitBase/AddUnit/AddCategory with duplicates, foreign and legacy units, override, "
+             "from_category, exclusive limits) with SYMBOLIC limits/default from 7 constructed pre-states: accepted exactly when a 3-dict reference model accepts, "
+             "well-formed and predicted registry afterwards, identical snapshot after rejection. Two-step histories in thorough.",
+        note="discrete dimension enumerated (stated); the solver decides the value-dependent acceptance conditions (limits/default) for all reals",
+        ref="DESIGN.md §4 C14"),
+    "C15": dict(
+        text="Histories query(s) - registration - battery on a warm database (22 read-only/failing queries x 9 accepted/rejected registrations, symbolic amounts and "
+             "limits): the public registry snapshot is identical around every query and rejected registration, and every battery answer (value terms, verdicts, "
+             "exception class) is proved equal, on every path, to the answer of a database freshly built from the same accepted registrations.",
+        note="patterns of length 3 (quick) / 4 (thorough); memo tables are deliberately not part of the snapshot",
+        ref="DESIGN.md §4 C15"),
     "C16": dict(
         text="Every legacy spelling derivable (by an independent reference rewriting) from the substitution list for every table unit is pushed through 14 "
              "API entries (ObtainQuantity, Scalar/Array/FixedArray/FractionScalar construction, FromScalars, CreateCopy, GetValue(s), UnitDatabase.Convert on "
